@@ -16,7 +16,7 @@ use std::sync::Mutex;
 use std::time::Instant;
 
 pub const POOL_LIMIT: usize = 65535;
-pub const NKINDS: u64 = 25;
+pub const NKINDS: u64 = 26;
 
 struct B {
     ops: Vec<OpRec>,
@@ -77,14 +77,18 @@ fn rows_table() -> Op {
 fn pool_image(total: usize, long_refs: bool, rng: &mut Prng) -> ForeignSpec {
     let mk = |n: usize| -> ForeignSpec {
         let rows: Vec<Vec<Val>> =
-            (0..n).map(|i| vec![Val::Int(i as i32 + 1), Val::Str(format!("Q{}Q", 700_000 + i))]).collect();
+            (0..n).map(|i| vec![Val::Int(i as i32 + 1), Val::Str(format!("Q{}Q", 700_000 + i)), Val::Null]).collect();
         ForeignSpec {
             ptype: PType::Installer,
             codepage: 65001,
             long_refs,
             tables: vec![FTable {
                 name: "P".into(),
-                cols: vec![ColSpec::new("K", CType::I32).key(), ColSpec::new("S", CType::Str(0)).nullable()],
+                cols: vec![
+                    ColSpec::new("K", CType::I32).key(),
+                    ColSpec::new("S", CType::Str(0)).nullable(),
+                    ColSpec::new("S2", CType::Str(0)).nullable(),
+                ],
                 rows,
                 sorted: true,
                 width1: false,
@@ -111,6 +115,10 @@ fn pool_image(total: usize, long_refs: bool, rng: &mut Prng) -> ForeignSpec {
     spec.pool_seed = rng.next_u64();
     debug_assert_eq!(spec.model().live_strings().len(), total);
     spec
+}
+
+fn prow(k: i32, s: Val) -> Vec<Val> {
+    vec![Val::Int(k), s, Val::Null]
 }
 
 fn new_str(i: u32) -> Val {
@@ -196,33 +204,33 @@ pub fn scenario(seed: u64, idx: u64) -> Trace {
             match kind {
                 9 => {
                     // L-1 -> L accepted, L+1 refused
-                    b.push(Op::Insert { table: "P".into(), rows: vec![vec![Val::Int(1_000_001), new_str(1)]] });
-                    b.push(Op::Insert { table: "P".into(), rows: vec![vec![Val::Int(1_000_002), new_str(2)]] });
+                    b.push(Op::Insert { table: "P".into(), rows: vec![prow(1_000_001, new_str(1))] });
+                    b.push(Op::Insert { table: "P".into(), rows: vec![prow(1_000_002, new_str(2))] });
                     b.push(Op::Observe);
                 }
                 10 => {
                     // at L: a new string is refused, an existing one is fine
-                    b.push(Op::Insert { table: "P".into(), rows: vec![vec![Val::Int(1_000_001), new_str(1)]] });
-                    b.push(Op::Insert { table: "P".into(), rows: vec![vec![Val::Int(1_000_002), Val::Str(format!("Q{}Q", 700_003))]] });
-                    b.push(Op::Insert { table: "P".into(), rows: vec![vec![Val::Int(1_000_003), Val::Null]] });
+                    b.push(Op::Insert { table: "P".into(), rows: vec![prow(1_000_001, new_str(1))] });
+                    b.push(Op::Insert { table: "P".into(), rows: vec![prow(1_000_002, Val::Str(format!("Q{}Q", 700_003)))] });
+                    b.push(Op::Insert { table: "P".into(), rows: vec![prow(1_000_003, Val::Null)] });
                 }
                 11 => {
                     // at L: deleting frees a slot
                     b.push(Op::Delete { table: "P".into(), cond: Some(Cond::Cmp("K".into(), CmpOp::Le, Val::Int(2))) });
-                    b.push(Op::Insert { table: "P".into(), rows: vec![vec![Val::Int(1_000_001), new_str(1)], vec![Val::Int(1_000_002), new_str(2)]] });
-                    b.push(Op::Insert { table: "P".into(), rows: vec![vec![Val::Int(1_000_003), new_str(3)]] });
+                    b.push(Op::Insert { table: "P".into(), rows: vec![prow(1_000_001, new_str(1)), prow(1_000_002, new_str(2))] });
+                    b.push(Op::Insert { table: "P".into(), rows: vec![prow(1_000_003, new_str(3))] });
                 }
                 12 => {
                     // L-1: a batch needing two slots is refused as a whole
-                    b.push(Op::Insert { table: "P".into(), rows: vec![vec![Val::Int(1_000_001), new_str(1)], vec![Val::Int(1_000_002), new_str(2)]] });
+                    b.push(Op::Insert { table: "P".into(), rows: vec![prow(1_000_001, new_str(1)), prow(1_000_002, new_str(2))] });
                     b.push(Op::Observe);
-                    b.push(Op::Insert { table: "P".into(), rows: vec![vec![Val::Int(1_000_003), new_str(3)]] });
+                    b.push(Op::Insert { table: "P".into(), rows: vec![prow(1_000_003, new_str(3))] });
                 }
                 13 => {
                     // L-1 with a restart between the steps
-                    b.push(Op::Insert { table: "P".into(), rows: vec![vec![Val::Int(1_000_001), new_str(1)]] });
+                    b.push(Op::Insert { table: "P".into(), rows: vec![prow(1_000_001, new_str(1))] });
                     b.restart(&mut rng);
-                    b.push(Op::Insert { table: "P".into(), rows: vec![vec![Val::Int(1_000_002), new_str(2)]] });
+                    b.push(Op::Insert { table: "P".into(), rows: vec![prow(1_000_002, new_str(2))] });
                 }
                 14 => {
                     // at L: update to a new string replaces one (fits); to two rows needs none extra either
@@ -239,7 +247,7 @@ pub fn scenario(seed: u64, idx: u64) -> Trace {
                     // at L: summary and streams are not limited by the pool
                     b.push(Op::Summary(SumOp::SetStr(SumField::Author, "someone".into())));
                     b.push(Op::WriteStream { name: "Extra".into(), dseed: 5, steps: vec![WStep::Write(100), WStep::Flush] });
-                    b.push(Op::Insert { table: "P".into(), rows: vec![vec![Val::Int(1_000_001), new_str(1)]] });
+                    b.push(Op::Insert { table: "P".into(), rows: vec![prow(1_000_001, new_str(1))] });
                 }
             }
             b.restart(&mut rng);
@@ -248,7 +256,7 @@ pub fn scenario(seed: u64, idx: u64) -> Trace {
         // ---- three-byte references: no such limit
         17 => {
             let spec = pool_image(POOL_LIMIT, true, &mut rng);
-            b.push(Op::Insert { table: "P".into(), rows: vec![vec![Val::Int(1_000_001), new_str(1)], vec![Val::Int(1_000_002), new_str(2)]] });
+            b.push(Op::Insert { table: "P".into(), rows: vec![prow(1_000_001, new_str(1)), prow(1_000_002, new_str(2))] });
             b.push(Op::Observe);
             b.restart(&mut rng);
             trace(seed, idx, Init::Foreign(Box::new(spec)), b.ops, &mut rng)
@@ -320,9 +328,22 @@ pub fn scenario(seed: u64, idx: u64) -> Trace {
             let sat = format!("Q{}Q", 700_007);
             spec.saturate = Some(sat.clone());
             // one more reference to it needs a second entry: there may be no room
-            b.push(Op::Insert { table: "P".into(), rows: vec![vec![Val::Int(1_000_001), Val::Str(sat.clone())]] });
+            b.push(Op::Insert { table: "P".into(), rows: vec![prow(1_000_001, Val::Str(sat.clone()))] });
             b.push(Op::Observe);
             b.push(Op::Update { table: "P".into(), sets: vec![("S".into(), Val::Str(sat))], cond: Some(Cond::Cmp("K".into(), CmpOp::Eq, Val::Int(9))) });
+            b.restart(&mut rng);
+            trace(seed, idx, Init::Foreign(Box::new(spec)), b.ops, &mut rng)
+        }
+        // ---- L-1: one row with two new strings is refused as a whole; nothing of it may stay behind
+        25 => {
+            let spec = pool_image(POOL_LIMIT - 1, false, &mut rng);
+            b.push(Op::Insert { table: "P".into(), rows: vec![vec![Val::Int(1_000_001), new_str(1), new_str(2)]] });
+            b.push(Op::Observe);
+            if idx / NKINDS % 2 == 1 {
+                b.restart(&mut rng);
+            }
+            b.push(Op::Insert { table: "P".into(), rows: vec![prow(1_000_002, new_str(3))] });
+            b.push(Op::Insert { table: "P".into(), rows: vec![prow(1_000_003, new_str(4))] });
             b.restart(&mut rng);
             trace(seed, idx, Init::Foreign(Box::new(spec)), b.ops, &mut rng)
         }
@@ -411,7 +432,7 @@ pub fn check(tier: &str, seed: u64) -> i32 {
     let mut extra = BTreeMap::new();
     extra.insert(
         "scenario_kinds".to_string(),
-        serde_json::json!("0-2 columns 31/32/33; 3-5 rows 65535/65536/65537 in one batch; 6-7 rows incrementally (with restarts); 8 rows after deletions; 9-16 string pool at L-1/L with two-byte references (insert, batch, delete-then-insert, update, create_table, restart in between); 17 three-byte references; 18-19 table/column name lengths; 20 stream name lengths; 21 string widths 254/255/256; 22 16-bit refcount saturation; 23 seeded history on a near-full pool; 24 full pool plus a string with a saturated refcount"),
+        serde_json::json!("0-2 columns 31/32/33; 3-5 rows 65535/65536/65537 in one batch; 6-7 rows incrementally (with restarts); 8 rows after deletions; 9-16 string pool at L-1/L with two-byte references (insert, batch, delete-then-insert, update, create_table, restart in between); 17 three-byte references; 18-19 table/column name lengths; 20 stream name lengths; 21 string widths 254/255/256; 22 16-bit refcount saturation; 23 seeded history on a near-full pool; 24 full pool plus a string with a saturated refcount; 25 one row needing two entries when one is free"),
     );
     extra.insert("scenarios_per_kind".to_string(), serde_json::json!(kinds.into_inner().unwrap().into_iter().map(|(k, v)| (k.to_string(), v)).collect::<BTreeMap<_, _>>()));
     let rep = CheckReport {
